@@ -12,6 +12,10 @@ Sub-checks (case kinds):
                    (repr raises, 5000-deep list) among them: identical records               [oracle: debug]
   inert            listeners that set nothing and raise nothing (one edits the argument list it is handed):
                    same records with them, without them, on a parser created later  [oracle: inert listener]
+  transient        listeners that answer through their setter (callVariable, callCellValue, callFunction) and then
+                   stop answering (a flag) or are removed with off(): from then on the records are those of a parser
+                   whose listeners never answered, and the registered variables are what was registered
+                                                        [oracle: listener answers are not registrations]
   immut-fn/-ops    host values (variables, cell values, range values, values returned by host functions) are
                    snapshotted (deep copy, id and length of every nested list / tuple / dict) before the
                    evaluations and compared after each one                [oracle: host-value immutability]
@@ -57,28 +61,39 @@ RULE = ('(a) kind `history`: seeded histories on 1-3 long-lived parsers, quick 5
         'more: cells Z9 Y8 / range Y1:Z2 whose listener raises ValueError / the #NUM! singleton / KeyError, callVariable / '
         'callFunction listeners raising for badvar / BADFN, re-entrant EVALSELF). A step is one block: 18% a valid formula '
         '(fixed pool 38 model / 117 oracle-only, the latter across the builtin families and operators on lists), 12% a c04 '
-        'operator tree or a c08 error-propagation tree under one of its 10 wrappers (per-history pool of max(4, steps/3) '
-        'texts, depth <= 4 quick / 5 thorough), 8% (oracle-only) a random registered builtin with 0-3 arguments from a '
-        '15-member pool (incl. lists, an error value, cell, range, empty slot), 22% (model 30%) an erroneous formula (48 / 62: '
+        'operator tree (c04.gen_top, fully parenthesised at p 0.3) or, p 0.5 each, a c08 error-propagation tree (c08.gen, '
+        'error-leaf probability 0.15 / 0.3 / 0.6) under one of its 13 wrappers (per-history pool of max(4, steps/3) '
+        'texts, depth 1..4 quick / 1..5 thorough), 8% (oracle-only) a random registered builtin (of the 152) with 0-3 '
+        'arguments from a 15-member pool (incl. lists, an error value, cell, range, empty slot; per-history pool of '
+        'max(4, steps/3) calls), 22% (model 30%) an erroneous formula (48 / 62: '
         'syntax errors, unknown names/functions, 1/0, bad arities, error literals/values, failing builtins; oracle-only 15% of '
         'these a cut-off prefix of a valid formula), 16% an evaluation aborted by a raising callback (14 / 30: host functions '
         'raising ValueError, KeyError, XLError singletons / also raising listeners, re-entrant evaluation), 19% a '
         're-registration on a random parser (38 / 51: variables incl. lists, errors and the name TRUE, functions incl. '
         'shadowing SUM and defining NOSUCH, cell/range values, debug / listeners switched to raising and back), 2% '
-        '(oracle-only) `foreignlex`: the host builds and runs a PLY lexer of its own, so ply.lex.lexer is foreign, 3% (model '
-        '5%) a further parser with the standard bindings (one block) or, all being built, the empty formula. After the set-up '
+        '(oracle-only) `foreignlex`: the host builds and runs a PLY lexer of its own (ply.lex.lex over a class with the '
+        'tokens WORD / INT, fed "host text 42" and read to its end; a block without record or registration), so '
+        'ply.lex.lexer is foreign, 3% (model 5%) a further parser with the standard bindings (one block) or, all being built, the empty formula. After the set-up '
         'block and after every step every probe (22 model / 43 oracle-only; a seeded half when steps > 100) is evaluated on '
         'every parser built so far and its record compared (type-strict ==: 1, 1.0, True differ; float tolerance 0, NaN = NaN) '
         'with that of a fresh parser given the same registrations in the same order (built once per parser x registration '
         'state x probe); the records of the steps themselves are compared with the model only; after every block the traceback '
         'chains of the nine singletons must total <= 100 entries; a history stops at 5 findings. (b) kind `debug`, 2 cases: '
-        '120 (thorough all 252) of the fixed valid/erroneous/raising/probe formulas; 60 (300) c04/c08 trees of depth <= 5 + 80 '
+        '120 (thorough all 252, 244 distinct) of the fixed valid/erroneous/raising/probe formulas; 60 (300) c04/c08 trees of depth <= 5 + 80 '
         '(600) random builtin calls; each + 10 formulas passing unprintable host values (an object whose repr/str raise, a '
         'list nested 5000 deep) through variables, cell H9, range H9:H10, host functions TAKES / GIVES; every formula on three '
         'parsers with the 48 bindings - debug off, on, toggled per formula - stderr captured, the three records type-strict '
         'equal. Kind `inert`, 1 case: 40 seeded valid + 12 fixed formulas on a parser without extra listeners, twice on one '
         'with callFunction / callVariable journal listeners that set and raise nothing (the callFunction one edits in place '
-        'the argument list it is handed), on the first again, on a parser created afterwards: five equal records. (c) kind '
+        'the argument list it is handed), on the first again, on a parser created afterwards: five equal records. Kind '
+        '`transient`, 1 case: 7 fixed (bonus+1, rate*10, Q7+1, SUM(1,2), ISBLANK(Q7), rate&"x", bonus) + 25 seeded valid '
+        'formulas on parsers with the 48 bindings, the variable rate = 2 and three more listeners behind a flag '
+        '(callVariable sets bonus = 7 / rate = 5, callCellValue sets Q7 = 40, callFunction sets 1000 for SUM): the records '
+        'of a parser whose flag was never on are the reference; a second parser evaluates all with the flag on, then again '
+        'with it off; a third evaluates all with the flag on, has the three listeners removed with Parser.off and '
+        'evaluates again: the records after switching off and after removal type-strict equal to the reference, and on '
+        'the second parser Parser.variables still has rate = 2 and no bonus. debug / inert / transient keep at most 5 '
+        'findings. (c) kind '
         '`immut-fn`, one case per registered builtin (152): 88 formulas = arity 1..3 x 10/14/13 argument sets over 13 host '
         'values (flat unsorted, nested, mixed, deep, text, empty, one-element lists, dict, object holding a list, tuple '
         'holding a list) as variables, once more as cell / range / host-function result (rotating), every third through host '
@@ -88,19 +103,24 @@ RULE = ('(a) kind `history`: seeded histories on 1-3 long-lived parsers, quick 5
         'values is compared with its deep copy (==) and with the id and length of every nested list/tuple/dict (to depth 20); '
         'stops at 3 findings; a formula running > 10 s (SIGALRM, wall-clock) is skipped, not judged. (d) kind `memory`: 18 '
         'formulas quick / 36 thorough (valid, syntax and name errors, raised and returned errors, raising callbacks, '
-        're-entrant) with debug off + 2 / 4 with debug on; kind `memory-distinct`: 6 / 13 templates giving a different formula '
-        'each time; 30 warm-up evaluations, then samples after 50/100/200/400 on one parser per debug setting shared by all '
+        're-entrant) with debug off + 2 / 4 with debug on (foo, PYRAISE() / also Z9, 1+); kind `memory-distinct`: 6 / 13 '
+        'templates giving a different formula each time (a number counting up from a per-template offset; debug off); 30 '
+        'warm-up evaluations, then samples after 50/100/200/400 on one parser per debug setting shared by all '
         'memory cases: live gc objects after gc.collect, tracemalloc bytes of hotxlfp/ply frames, __traceback__ and '
         '__context__/__cause__ chain lengths of the nine singletons. Verdict: any chain growth between the last two samples; '
         'or > 0.05 objects or > 0.5 bytes per evaluation there with growth in the interval before too, confirmed by a second '
-        'measurement at 100/200/400/800. Scale changes (a) only. Model-compared histories are sent whole (steps and probe '
+        'measurement at 100/200/400/800 (30 warm-up evaluations again, memory-distinct with fresh numbers from 7000000; not '
+        'taken when a chain grew). Sampling stops early once the traceback chains have grown over two successive intervals. '
+        'Scale changes (a) only. Model-compared histories are sent whole (steps and probe '
         'evaluations) to `session.run`; all other cases are oracle-only. NOW, TODAY, RAND, RANDBETWEEN are excluded. search() '
         '(proof or correspondence broke, no oracle failure yet): 20 + 28 more histories quick, 60 + 140 thorough, oracle only, '
         'until the first failure. A failing history is shrunk (one probe, blocks and registrations dropped, <= 200 re-runs). '
         'Non-trivial: history = a failing step, a step naming a raising callback, a registration and a probe comparison; debug '
-        '= a traceback printed with debug on; immut = a formula judged; inert, memory always. Bulk weights (evaluations, '
-        'non-trivial inputs, model comparisons): history (parses, probe comparisons, model records), debug (3n, n, 0), inert '
-        '(5n, 4n, 0), immut (n, n, 0) with n formulas, memory (430, 1, 0).')
+        '= a traceback printed with debug on; transient = a formula whose record with answering listeners differs from the '
+        'reference; immut = a formula judged; inert, memory always. Bulk weights (evaluations, '
+        'non-trivial inputs, model comparisons): history (parses, probe comparisons, model records), debug (3n, n, 0; n '
+        'without the 10 unprintable-value formulas), inert (5n, 4n, 0), transient (5n, 2n, 0), immut (n, n, 0) with n '
+        'formulas, memory (430, 1, 0).')
 TRUSTED = ['the LR stack residue after an aborted parse is over-approximated by the session model (compared as: real stack '
            'depth <= model depth) and the cursor of the clone lexer is not compared (its text is); raises caught inside '
            'builtins (CONCATENATE) are not modelled',
@@ -109,12 +129,16 @@ TRUSTED = ['the LR stack residue after an aborted parse is over-approximated by 
            'after each Parser construction), per parser errorok, clone text and a never-fed prototype lexer, read off '
            'p.parser.yacc / p.parser.lex; where the model has no opinion `(o ...)` the record, the traceback count and the '
            'stack depths are not compared; a history cut short by an oracle finding is not aligned',
-           'host-value immutability, debug, inert listeners and the memory clause are judged on the implementation only '
+           'host-value immutability, debug, inert and transient listeners and the memory clause are judged on the implementation only '
            '(values are immutable in the model): gc.get_objects / tracemalloc (1 frame, file names */hotxlfp/* */ply/*) / '
            'traceback-chain walks are the measuring instruments, 0.05 objects and 0.5 bytes per evaluation the noise floor',
            'model-compared histories stay inside the modelled fragment (operators, literals, variables, cells, ranges, '
            'Logic/Info builtins, SUM, host functions); other builtins, raising listeners, EVALSELF, foreignlex and cut-off '
            'formulas take part in the oracle-only histories',
+           'transient: the reference is not a model answer but the same implementation on a parser built the same way whose '
+           'three extra listeners never answer; the answering listeners are the harness\'s own (a flag switches them, '
+           'Parser.off removes them) and run after the standard listeners of the harness parser (whose cell listener has '
+           'already set None for Q7); only Parser.variables is inspected for left-over registrations',
            'harness hygiene: __traceback__/__context__/__cause__ of the nine singletons are cleared before and after every '
            'case (growth is observed within a case, not across cases); a mutated host value is restored after its finding; '
            'tracebacks printed are counted by their first line on a redirected sys.stderr',
@@ -132,6 +156,10 @@ ASSUMPTIONS = ['"bindings" = variables, functions, the listeners and what they d
                'probes after each step, the record of a step itself is not judged by the oracle',
                'a listener that sets nothing and raises nothing is no binding: records with and without it are equal, also '
                'when it edits the argument list it was handed',
+               'what a listener hands to its setter is the value of that one evaluation, not a registration: once the listener '
+               'sets nothing any more, or was removed with off(), the outcome is that of a parser with the same registrations '
+               'whose listeners never answered (a registered variable the listener overrode has its registered value again, a '
+               'name, cell or function answer only the listener supplied is gone) and Parser.variables is as registered',
                'debug on/off: the clause is equality of the three records; printing that calls repr/str of a host value or '
                'recurses through a 5000-deep list shows only as a record that differs between the settings',
                '"never mutates": == with a deep copy plus identity and length of every nested container of the 13 host values; '
